@@ -1,9 +1,9 @@
 (* C11 property theorems: statements only, each closed by `exact`.
    Definitions used in the statements: Model.v (call_ok, scrape, write_fit, direct_row, best, best_child ...),
    Proofs2.v (CallOk), Proofs3.v (wf, loadable, holds, ids_of, cell_ids, cells_disjoint,
-   parent_files_consistent), Proofs4.v (spec_ok). *)
+   parent_files_consistent), Proofs4.v (spec_ok); best_child, best_child_repaired, best_fits_query, highest_in: Model.v. *)
 From Coq Require Import List String Bool ZArith.
-From PAFC11 Require Import Lib Gen Model Proofs Proofs2 Proofs3 Proofs4.
+From PAFC11 Require Import Lib Gen Model Proofs Proofs2 Proofs3 Proofs4 Proofs5.
 Import ListNotations.
 Open Scope string_scope.
 Open Scope list_scope.
@@ -152,13 +152,67 @@ Theorem C11_grid_legacy_refuted :
     scrape [] false false dir [] = Raised "IntegrityError".
 Proof. exact grid_refuted. Qed.
 
-(* the best fit of a grid search is a linked cell of maximal likelihood *)
+(* ---- the best fit of a grid search, through both routes the library offers; likelihoods are order-preserving
+   keys of binary64 values, so every statement holds for likelihoods of every sign, 0.0 and -inf included ---- *)
+
+(* Fit.best_fit as written: whatever cell it returns is a linked cell of maximal likelihood *)
 Theorem C11_grid_best : forall (db : list row) (gid : string) (b : row),
-  best_child db gid = Some b ->
+  best_child db gid = BestIs b ->
   In b (children db gid) /\
   exists w, r_maxll b = Some w /\
             forall c, In c (children db gid) -> exists u, r_maxll c = Some u /\ (u <= w)%Z.
 Proof. exact best_child_is_max. Qed.
+
+(* ... and it does return one when every cell holds a likelihood and one of them is above -inf (in particular a
+   cell whose likelihood is exactly 0.0, key 0, is found whatever the sign of the others) *)
+Theorem C11_grid_best_partial : forall (db : list row) (gid : string),
+  (forall c, In c (children db gid) -> exists u, r_maxll c = Some u) ->
+  (exists c u, In c (children db gid) /\ r_maxll c = Some u /\ (neg_inf_key < u)%Z) ->
+  exists b, best_child db gid = BestIs b /\
+    In b (children db gid) /\
+    exists w, r_maxll b = Some w /\
+              forall c, In c (children db gid) -> exists u, r_maxll c = Some u /\ (u <= w)%Z.
+Proof. exact best_child_exists. Qed.
+
+(* without the two guards the statement fails for the code as written: a cell without samples makes Fit.best_fit
+   raise TypeError, cells that all hold -inf make it return None, although a cell of highest likelihood exists
+   (known findings grid-best-fit-cell-without-likelihood / grid-best-fit-all-minus-inf) *)
+Theorem C11_grid_best_refuted :
+  (exists db gid, (exists b, highest_in (children db gid) b) /\ best_child db gid = BestRaised) /\
+  (exists db gid, (exists b, highest_in (children db gid) b) /\ best_child db gid = BestNone).
+Proof. exact best_child_total_refuted. Qed.
+
+(* aggregator.grid_searches().best_fits(): exactly the cells of highest likelihood among those that hold one *)
+Theorem C11_grid_best_fits_query : forall (db : list row) (gid : string) (b : row),
+  In b (best_fits_query db gid) <-> highest_in (children db gid) b.
+Proof. exact best_fits_query_spec. Qed.
+
+Theorem C11_grid_best_fits_query_nonempty : forall (db : list row) (gid : string),
+  (exists c u, In c (children db gid) /\ r_maxll c = Some u) ->
+  exists b, In b (best_fits_query db gid).
+Proof. exact best_fits_query_nonempty. Qed.
+
+(* the two routes agree: the cell Fit.best_fit returns is one best_fits() lists *)
+Theorem C11_grid_best_routes_agree : forall (db : list row) (gid : string) (b : row),
+  best_child db gid = BestIs b -> In b (best_fits_query db gid).
+Proof. exact best_routes_agree. Qed.
+
+(* the repaired Fit.best_fit (proposed_fixes/C11-best-fit-cells-without-likelihood.diff): never raises on a grid
+   search with cells; returns a cell of highest likelihood -- one best_fits() lists -- as soon as one cell holds a
+   likelihood; and changes nothing where the code as written returns a cell *)
+Theorem C11_grid_best_repaired : forall (db : list row) (gid : string),
+  children db gid <> [] ->
+  match best_child_repaired db gid with
+  | BestIs b => highest_in (children db gid) b /\ In b (best_fits_query db gid)
+  | BestNone => forall c, In c (children db gid) -> r_maxll c = None
+  | BestRaised => False
+  end.
+Proof. exact best_child_repaired_spec. Qed.
+
+Theorem C11_grid_best_repaired_conservative : forall (db : list row) (gid : string) (b : row),
+  best_child db gid = BestIs b ->
+  exists b', best_child_repaired db gid = BestIs b' /\ r_maxll b' = r_maxll b.
+Proof. exact best_child_repaired_conservative. Qed.
 
 (* ---- the directory route agrees with the session route ---- *)
 Theorem C11_routes_agree : forall (classes : list search_class) (uf : bool) (specs : list fit_spec),
@@ -200,3 +254,6 @@ Print Assumptions C11_lossless.
 Print Assumptions C11_grid.
 Print Assumptions C11_routes_agree.
 Print Assumptions C11_prefit_interrupted_harmless.
+Print Assumptions C11_grid_best_partial.
+Print Assumptions C11_grid_best_fits_query.
+Print Assumptions C11_grid_best_repaired.
